@@ -2,6 +2,7 @@ package checks
 
 import (
 	"fmt"
+	"reflect"
 
 	"github.com/jrhy/mast"
 	"pgregory.net/rapid"
@@ -57,6 +58,43 @@ func runC05(c HistCase, o *run.Obs) error {
 					if r2.NodeFormat != sr.Root.NodeFormat || r2.BranchFactor != sr.Root.BranchFactor || r2.Size != sr.Root.Size || r2.Height != sr.Root.Height {
 						return fmt.Errorf("reloaded tree describes itself as %+v, persisted root was %+v", *r2, sr.Root)
 					}
+				}
+			}
+			if cm, _ := c.Cfg.Codec(); cm == nil && c.Cfg.Val != core.VNil {
+				// a read-only opening that names no value type: the keys of the version are still all there, in order
+				rc := w.RemoteConfig(w.Store, nil)
+				rc.ValuesLike, rc.UnmarshalerUsesRegisteredTypes = nil, false
+				root := sr.Root
+				var km *mast.Mast
+				if err := core.Safely("LoadMast", func() error { var e error; km, e = root.LoadMast(core.Ctx, rc); return e }); err == nil {
+					got, err := core.IterAll(km)
+					if err != nil {
+						return fmt.Errorf("iterating the root just persisted, opened without ValuesLike, failed: %w", err)
+					}
+					keys := sr.Model.Keys()
+					if len(got) != len(keys) || km.Size() != uint64(len(keys)) {
+						return fmt.Errorf("the root just persisted, opened without ValuesLike, yields %d keys (Size %d), persisted %d", len(got), km.Size(), len(keys))
+					}
+					for i, ki := range keys {
+						if w.Cfg.RefCompare(got[i].K, w.Pool[ki]) != 0 {
+							return fmt.Errorf("the root just persisted, opened without ValuesLike, yields key %#v at %d, expected %#v", got[i].K, i, w.Pool[ki])
+						}
+						var typed interface{}
+						if zv := c.Cfg.ZeroVal(); zv != nil && i%2 == 0 {
+							typed = reflect.New(reflect.TypeOf(zv)).Interface()
+						}
+						var found bool
+						if err := core.Safely("Get", func() error { var e error; found, e = km.Get(core.Ctx, w.Pool[ki], typed); return e }); err != nil || !found {
+							return fmt.Errorf("the root just persisted, opened without ValuesLike: Get(%v) = %v, %v", w.Pool[ki], found, err)
+						}
+						if typed != nil && i < 8 {
+							// whatever lands in the destination, it is nothing or the stored value
+							if v := reflect.ValueOf(typed).Elem(); !v.IsZero() && !core.EqualVal(v.Interface(), w.Cfg.MakeVal(sr.Model[ki])) {
+								return fmt.Errorf("the root just persisted, opened without ValuesLike: Get(%v) filled in %#v, stored was %#v", w.Pool[ki], v.Interface(), w.Cfg.MakeVal(sr.Model[ki]))
+							}
+						}
+					}
+					o.Label("keys-only-opening")
 				}
 			}
 			return nil
